@@ -876,6 +876,12 @@ def _inline_new_helpers(tree, ref_funcs, done):
                 else:
                     # a parameter the helper re-binds never aliases the caller's variable of the same name (the caller may read it later)
                     tgt = p_ if p_ not in caller_names or (isinstance(arg, ast.Name) and arg.id == p_ and p_ not in stored) else p_ + '__inl'
+                    # ... except in `X = helper(.., X, ..)`: whatever the helper does to its copy of X, the statement overwrites X with the
+                    # result on every normal exit, so the helper may work on X itself (no handler of the caller can see the difference)
+                    if isinstance(arg, ast.Name) and isinstance(stmt, ast.Assign) and len(stmt.targets) == 1 and isinstance(stmt.targets[0], ast.Name) \
+                            and stmt.targets[0].id == arg.id and not any(isinstance(x, ast.Try) for x in _own(caller)) \
+                            and sum(1 for a2 in call.args + [k.value for k in call.keywords] for x in ast.walk(a2) if isinstance(x, ast.Name) and x.id == arg.id) == 1:
+                        tgt = arg.id
                     if tgt != p_:
                         mapping[p_] = tgt
                     if not (isinstance(arg, ast.Name) and arg.id == tgt):
